@@ -65,3 +65,14 @@ Proof.
     | H : False |- _ => contradiction
     end.
 Qed.
+
+(* dead on arrival (tcp / unix: reset or closed while in the listen backlog): both dead connections are
+   accepted, spawned and their drivers end at once; the good client queued behind them is served *)
+Example c09_dead_on_arrival :
+  let evs := [EConnectDead; EConnectDead; EConnect KH1; ESettle; EReq 2; EStep 2; EStep 2; EStep 2] in
+  let tr := trace (run (mkCfg false PH1) evs) in
+  serving_result (run (mkCfg false PH1) evs) = StillServing
+  /\ firstn 14 tr = [OConnect 0; OFault 0; OConnect 1; OFault 1; OConnect 2;
+                     OAccept 0; OSpawn 0; ODone 0; OAccept 1; OSpawn 1; ODone 1; OAccept 2; OSpawn 2; OQuiet]
+  /\ existsb (fun o => match o with OResp 2 => true | _ => false end) tr = true.
+Proof. cbv zeta. repeat split; vm_compute; reflexivity. Qed.
